@@ -5,3 +5,10 @@
 ; sig nn_count Int
 (define-fun-rec nn_count ((A (Array Int Int)) (AO (Array Int Int)) (AL (Array Int Int)) (AC (Array Int Int)) (o Int) (k Int)) Int
   (ite (<= k 0) 0 (+ (nn_count A AO AL AC o (- k 1)) (ite (= (select A (+ o (- k 1))) 0) 0 1))))
+; powers of ten up to 10^20 (a table, so that everything stays linear)
+(define-fun pow10 ((k Int)) Int
+  (ite (<= k 0) 1 (ite (= k 1) 10 (ite (= k 2) 100 (ite (= k 3) 1000 (ite (= k 4) 10000 (ite (= k 5) 100000 (ite (= k 6) 1000000
+  (ite (= k 7) 10000000 (ite (= k 8) 100000000 (ite (= k 9) 1000000000 (ite (= k 10) 10000000000 (ite (= k 11) 100000000000
+  (ite (= k 12) 1000000000000 (ite (= k 13) 10000000000000 (ite (= k 14) 100000000000000 (ite (= k 15) 1000000000000000
+  (ite (= k 16) 10000000000000000 (ite (= k 17) 100000000000000000 (ite (= k 18) 1000000000000000000
+  (ite (= k 19) 10000000000000000000 100000000000000000000)))))))))))))))))))))
